@@ -551,6 +551,10 @@ func (s *State) evalBuiltin(node *ast.Builtin) object.Object {
 	}
 	switch t {
 	case token.CATCH:
+		if rt == object.RETURN {
+			// catch(break): like in an argument list, break/continue/return are not values to be stored (and compared).
+			return s.Errorf("%s can't be used as a value in catch()", val.(object.ReturnValue).ControlType.String())
+		}
 		isError := rt == object.ERROR
 		if isError {
 			val = object.String{Value: val.(object.Error).Value}
